@@ -33,24 +33,31 @@ func (vC04PM) APIForwardDestGet(string, uuid.UUID) (*defs.APIForwardDest, error)
 func TestVerifC04(t *testing.T) {
 	gin.SetMode(gin.ReleaseMode)
 	mgr := vC04Manager()
-	var addr string
-	var m *Metrics
-	var ierr error
-	for try := 0; try < 4; try++ { // the scratch port may be taken between probing and listening
-		addr = vC04FreeAddr()
-		m = &Metrics{
-			Address: addr, TrustedProxies: vC04TrustedProxies(),
-			ReadTimeout: conf.Duration(20 * time.Second), WriteTimeout: conf.Duration(20 * time.Second),
-			AuthManager: mgr, Parent: test.NilLogger,
+	// two instances: [0] with the trusted proxy 127.0.0.1/32, [1] without trusted proxies (the default)
+	var bases [2]string
+	var ms [2]*Metrics
+	for inst := 0; inst < 2; inst++ {
+		var m *Metrics
+		var ierr error
+		for try := 0; try < 4; try++ { // the scratch port may be taken between probing and listening
+			addr := vC04FreeAddr()
+			m = &Metrics{
+				Address: addr, TrustedProxies: vC04TrustedProxies(inst),
+				ReadTimeout: conf.Duration(20 * time.Second), WriteTimeout: conf.Duration(20 * time.Second),
+				AuthManager: mgr, Parent: test.NilLogger,
+			}
+			if ierr = m.Initialize(); ierr == nil {
+				bases[inst] = "http://" + addr
+				break
+			}
 		}
-		if ierr = m.Initialize(); ierr == nil {
-			break
+		if ierr != nil {
+			t.Fatal(ierr)
 		}
+		defer m.Close()
+		m.SetPathManager(&vC04PM{})
+		ms[inst] = m
 	}
-	if ierr != nil {
-		t.Fatal(ierr)
-	}
-	defer m.Close()
-	m.SetPathManager(&vC04PM{})
-	vC04Run(t, vC04Spec{Server: "metrics", Base: "http://" + addr, Routes: vC04Routes(m.httpServer.Handler), Share: 12}, mgr)
+	vC04SameRoutes(t, ms[0].httpServer.Handler, ms[1].httpServer.Handler)
+	vC04Run(t, vC04Spec{Server: "metrics", Bases: bases, Routes: vC04Routes(ms[0].httpServer.Handler), Share: 12}, mgr)
 }
